@@ -24,7 +24,18 @@ type Row struct {
 	Cells    map[string]refmodel.Cell // column name -> canonical value
 }
 
-type Lookup func(ref *refmodel.Ref, val []byte) bool
+// Lookup answers whether val is present in the referenced integration's column
+// when the row of block blockNum is processed.
+type Lookup func(ref *refmodel.Ref, val []byte, blockNum uint64) bool
+
+func at(l Lookup, blockNum uint64) func(ref *refmodel.Ref, val []byte) bool {
+	return func(ref *refmodel.Ref, val []byte) bool {
+		if l == nil {
+			return false
+		}
+		return l(ref, val, blockNum)
+	}
+}
 
 func big64(x uint64) *big.Int { return new(big.Int).SetUint64(x) }
 
@@ -188,7 +199,7 @@ func blockRow(d *refmodel.Decl, agg, src string, chainID uint64, b *sim.Block, t
 		}
 		r.Cells[bf.Column] = v
 		if bf.Filter.Active() {
-			if verdict, applies := bf.Filter.Accepts(v, lookup); applies {
+			if verdict, applies := bf.Filter.Accepts(v, at(lookup, b.Num)); applies {
 				verdicts = append(verdicts, verdict)
 			}
 		}
@@ -230,7 +241,7 @@ func logRows(d *refmodel.Decl, agg, src string, chainID uint64, b *sim.Block, tx
 			}
 			r.Cells[s.Column] = cell
 			if f := d.Filters[filterKey(ev, s)]; f.Active() {
-				if verdict, applies := f.Accepts(cell, lookup); applies {
+				if verdict, applies := f.Accepts(cell, at(lookup, b.Num)); applies {
 					verdicts = append(verdicts, verdict)
 				}
 			}
@@ -243,7 +254,7 @@ func logRows(d *refmodel.Decl, agg, src string, chainID uint64, b *sim.Block, tx
 			v, _ := FieldValue(bf.Name, d, src, chainID, b, tx, l, nil, -1)
 			r.Cells[bf.Column] = v
 			if bf.Filter.Active() {
-				if verdict, applies := bf.Filter.Accepts(v, lookup); applies {
+				if verdict, applies := bf.Filter.Accepts(v, at(lookup, b.Num)); applies {
 					verdicts = append(verdicts, verdict)
 				}
 			}
